@@ -230,8 +230,15 @@ func (c simSvcClient) UpdateStatus(svc *v1.Service) error {
 			return errors.New("simulated: status write failed")
 		}
 	}
-	w.checkStealOnWrite(key, svc)
-	w.checkStatusStability(key, svc)
+	// the write-time oracles judge writes the API server accepts: a write rejected for a stale
+	// resourceVersion changes nothing (they only read the statuses of the OTHER services and what
+	// the handler was shown, so evaluating them once the outcome is known is equivalent)
+	if cur := w.getSvc(key); cur != nil && (svc.ResourceVersion == "" || cur.ResourceVersion == svc.ResourceVersion) {
+		w.checkStealOnWrite(key, svc)
+		w.checkStatusStability(key, svc)
+	} else {
+		w.stat("probe.status-write-with-stale-resource-version")
+	}
 	err := w.srv.UpdateStatus(svc)
 	if err != nil {
 		w.stat("fault.status-write-conflict-or-notfound")
